@@ -6,6 +6,7 @@ import (
 	"crypto/sha256"
 	"encoding/hex"
 	"encoding/json"
+	"errors"
 	"fmt"
 	"net/http"
 	"sync"
@@ -65,6 +66,9 @@ type Stats struct {
 // ========================================
 // In-Memory LRU Cache
 // ========================================
+
+// ErrEntryTooLarge is returned when a single value is larger than the cache's byte limit
+var ErrEntryTooLarge = errors.New("cache: entry larger than max size")
 
 // LRUCache implements an LRU (Least Recently Used) cache
 type LRUCache struct {
@@ -181,6 +185,18 @@ func (c *LRUCache) Set(key string, value interface{}, ttl time.Duration) error {
 	// Calculate entry size (rough estimate)
 	size := estimateSize(value)
 
+	// An entry that can never fit (no capacity, or larger than the byte limit on its own)
+	// is not stored; drop any previous value so a stale one is never served.
+	if c.capacity <= 0 || (c.maxSize > 0 && size > c.maxSize) {
+		if elem, ok := c.items[key]; ok {
+			c.removeElement(elem)
+		}
+		if c.capacity <= 0 {
+			return nil
+		}
+		return ErrEntryTooLarge
+	}
+
 	var expiresAt time.Time
 	if ttl > 0 {
 		expiresAt = time.Now().Add(ttl)
@@ -202,12 +218,16 @@ func (c *LRUCache) Set(key string, value interface{}, ttl time.Duration) error {
 		c.currentSize -= oldEntry.Size
 		c.currentSize += size
 		elem.Value = entry
+		// A value that grew in place can push the cache over its byte limit
+		for c.maxSize > 0 && c.currentSize > c.maxSize && c.evictList.Len() > 1 {
+			c.evictOldest()
+		}
 		atomic.AddUint64(&c.stats.Sets, 1)
 		return nil
 	}
 
 	// Evict if necessary
-	for c.evictList.Len() >= c.capacity || (c.maxSize > 0 && c.currentSize+size > c.maxSize) {
+	for c.evictList.Len() > 0 && (c.evictList.Len() >= c.capacity || (c.maxSize > 0 && c.currentSize+size > c.maxSize)) {
 		c.evictOldest()
 	}
 
@@ -232,6 +252,18 @@ func (c *LRUCache) SetWithTags(key string, value interface{}, ttl time.Duration,
 
 	size := estimateSize(value)
 
+	// An entry that can never fit (no capacity, or larger than the byte limit on its own)
+	// is not stored; drop any previous value so a stale one is never served.
+	if c.capacity <= 0 || (c.maxSize > 0 && size > c.maxSize) {
+		if elem, ok := c.items[key]; ok {
+			c.removeElement(elem)
+		}
+		if c.capacity <= 0 {
+			return nil
+		}
+		return ErrEntryTooLarge
+	}
+
 	var expiresAt time.Time
 	if ttl > 0 {
 		expiresAt = time.Now().Add(ttl)
@@ -253,10 +285,13 @@ func (c *LRUCache) SetWithTags(key string, value interface{}, ttl time.Duration,
 		c.currentSize -= oldEntry.Size
 		c.currentSize += size
 		elem.Value = entry
+		for c.maxSize > 0 && c.currentSize > c.maxSize && c.evictList.Len() > 1 {
+			c.evictOldest()
+		}
 		return nil
 	}
 
-	for c.evictList.Len() >= c.capacity || (c.maxSize > 0 && c.currentSize+size > c.maxSize) {
+	for c.evictList.Len() > 0 && (c.evictList.Len() >= c.capacity || (c.maxSize > 0 && c.currentSize+size > c.maxSize)) {
 		c.evictOldest()
 	}
 
